@@ -26,7 +26,7 @@ def lq(v):
     return int(round(math.log2(v) * 1024))
 
 
-def rigidity_case(cid, rng, train_sizes, test_sizes, comp, alpha, with_witness=True):
+def rigidity_case(cid, rng, train_sizes, test_sizes, comp, alpha, with_witness=True, preset=None):
     from skmatter.metrics import componentwise_prediction_rigidity, local_prediction_rigidity
     d = int(sum(comp))
     r = 3
@@ -34,6 +34,8 @@ def rigidity_case(cid, rng, train_sizes, test_sizes, comp, alpha, with_witness=T
     if not any(np.any(t) for t in train):
         train[0][0, 0] = 1
     test = [rng.integers(-r, r + 1, size=(k, d)) for k in test_sizes]
+    if preset is not None:
+        train, test = [np.array(t) for t in preset[0]], [np.array(t) for t in preset[1]]
     for t in test:
         for row in t:
             if not np.any(row):
@@ -53,6 +55,9 @@ def rigidity_case(cid, rng, train_sizes, test_sizes, comp, alpha, with_witness=T
     try:
         with warnings.catch_warnings():
             warnings.simplefilter("ignore")
+            if preset is not None and len(preset) > 2:
+                # the call immediately before: the other training set with the same cheap fingerprints (memoisation must key on content)
+                local_prediction_rigidity([np.asarray(t, float) for t in preset[2]], [t.copy() for t in tef], a)
             lpr, rd = local_prediction_rigidity([t.copy() for t in trf], [t.copy() for t in tef], a)
             cpr, lcpr, rd2 = componentwise_prediction_rigidity([t.copy() for t in trf], [t.copy() for t in tef], a, np.asarray(comp))
             single = componentwise_prediction_rigidity([t.copy() for t in trf], [t.copy() for t in tef], a, np.asarray([d]))[1]
@@ -93,7 +98,24 @@ def gen(args):
     out = []
     for k, e in shapes:
         alpha = ALPHAS[int(rng.integers(len(ALPHAS)))]
-        out.append(rigidity_case("e%d" % k, rng, e["train"], e["test"], e["comp"], alpha))
+        c0 = rigidity_case("e%d" % k, rng, e["train"], e["test"], e["comp"], alpha)
+        out.append(c0)
+        # right afterwards, in the same process: a training set that shares every cheap fingerprint with the previous one
+        # (same environments regrouped into structures of the same sizes in another order, or one feature with reversed sign)
+        if not c0["raised"] and rng.random() < 0.35:
+            tr = [np.array(t) for t in c0["train"]]
+            allenv = np.vstack(tr)
+            sizes = [len(t) for t in tr]
+            if rng.random() < 0.5 and len(set(sizes)) > 1:
+                sizes2 = sizes[::-1] if sizes[::-1] != sizes else sizes[1:] + sizes[:1]
+                cuts = np.cumsum(sizes2)[:-1]
+                tr2 = [a for a in np.split(allenv, cuts)]
+            else:
+                tr2 = [a.copy() for a in tr]
+                j = int(rng.integers(tr2[0].shape[1]))
+                for a in tr2:
+                    a[:, j] = -a[:, j]
+            out.append(rigidity_case("e%d-again" % k, rng, e["train"], e["test"], e["comp"], alpha, preset=(tr2, c0["test"], c0["train"])))
     return out
 
 
